@@ -82,6 +82,7 @@ func runC16(c *Ctx) {
 	c.checkSetters("setter-records-arguments", "align", "*phaser", "*pwaligner")
 	c.L.Floor("setter-records-arguments", 7, "14 parameters of the phaser and aligner setters (floor = half)")
 	c.checkMatrixScans("matrix-scan-full", "fillMatrix_SW", "backTrack")
+	c.checkPairedLines("paired-lines", "align")
 }
 
 // close(phased) must be preceded by wg.Wait() in the same goroutine.
